@@ -14,7 +14,7 @@ MOD = "vf.checks.c15"
 
 R1_ADAPTERS = [("-a", "a1=GATCGGAAGA"), ("-a", "a2=TTGCAGTCCA"), ("-g", "a3=CCATGGTACC")]
 R2_ADAPTERS = [("-A", "b1=CTGTCTCTTA"), ("-A", "b2=AAGGTTCCAA"), ("-G", "b3=GGTCACGTTC")]
-INSERTS = ["ACGTTGCA", "TTGACCGTAGGT", "CAGT", "GGATCCTTAGCAAT"]
+INSERTS = ["ACGTTGCA", "TTGACCGTAGGT", "CAGT", "GGATCCTTAGCAAT", ""]  # "": reads that are nothing but adapters
 
 
 def seq_of(spec):
@@ -73,6 +73,11 @@ def scenarios(tier):
     # --revcomp with combinatorial demultiplexing: the names must be those of the orientation that was chosen
     for n1, n2 in ((1, 1), (2, 2), (2, 1)):
         S.append(dict(layout="paired", demux="combinatorial", n1=n1, n2=n2, times=1, final=None, keys=[], cores=1, revcomp=True))
+    # files describing R1 only (info / rest / wildcard file) must not change where a read or pair goes
+    for side in ("info_file", "rest_file", "wildcard_file"):
+        for layout, demux, n2 in (("single", "name", 0), ("paired", "name", 2), ("paired", "combinatorial", 2)):
+            for final in (None, "discard_untrimmed"):
+                S.append(dict(layout=layout, demux=demux, n1=2, n2=n2, times=1, final=final, keys=[], cores=1, side=side))
     multi = []
     for sc in S:
         if sc["times"] == 2 and not sc["keys"] and (sc["n1"], sc["n2"]) in ((2, 0), (3, 2), (2, 3), (2, 2)):
@@ -90,6 +95,8 @@ def opts_of(sc):
     if "m" in sc["keys"]:
         o["m"] = "6"
     outs = dict(demux=sc["demux"], untrimmed_output=sc["final"] == "untrimmed_output", too_short_output=False)
+    if sc.get("side"):
+        outs[sc["side"]] = True
     return o, outs
 
 
